@@ -49,7 +49,10 @@ RULE = ("meta-models: seeded generator (mmgen tiny/small/medium, hostile pattern
         "every second model); per valid SDK-written document up to 6 object-level mutants (one "
         "value set to a violating one: string / bytes length min-1 / max+1 keeping the pattern, a "
         "pattern-violating neighbour of the value within the length bounds, list size min-1 / "
-        "max+1) and 3 XML-level mutants (unknown element, two different siblings swapped, a "
+        "max+1; multi-pattern stream: hand-built models where one value carries 3-4 patterns "
+        "(class invariant + 2-4 levels of constrained primitives, declared in topological, "
+        "reversed or random order) and length bounds from two levels, expectations from the "
+        "construction, one mutant per single pattern / bound) and 3 XML-level mutants (unknown element, two different siblings swapped, a "
         "required property removed); distinct by (model, class, kind); patterns as in C13")
 
 
@@ -124,6 +127,72 @@ def model_oracle(ctx, models, results) -> Dict[str, Any]:
     return stats
 
 
+def chain_oracle(ctx, models, results) -> Dict[str, Any]:
+    """Several patterns and length bounds on one value (class invariant + chain of
+    constrained primitives, random declaration order); expectations from the spec."""
+    stats: Dict[str, Any] = {"models": len(models), "valid_values": 0, "mutants": {},
+                             "skipped": {}, "patterns_per_value": {}, "orders": {"topological": 0, "other": 0}}
+    nontrivial = []
+    for m, res in zip(models, results):
+        stage = res.get("stage")
+        spec = m["spec"]
+        ident = {"model_index": m["index"], "spec": spec, "model_text": m["text"]}
+        how = "harness/gen/xsd.py:gen_chain_models (same VERIF_SEED); the model text is in the replay file"
+        if stage in ("adapter-exception", "harness-exception", "sdk-import"):
+            raise lib.HarnessError(f"multi-pattern stream broke at stage {stage}: {str(res)[:1500]}")
+        x = res.get("xsd") or {}
+        if stage == "xsd" and x.get("exception") is not None:
+            ctx.impl_failure(f"multi-pattern-xsd-generator-raises-{x['exception']['class']}",
+                             "the XSD generator raises when one value carries several patterns",
+                             ident, x["exception"], "multi-pattern", how)
+            continue
+        if stage == "xsd" and x.get("rc") != 0:
+            ctx.impl_failure("multi-pattern-xsd-generator-refuses",
+                             "the XSD generator refuses a meta-model in which one value carries "
+                             "several patterns whose intersection greenery can render",
+                             ident, " ".join((x.get("stderr") or "").split())[:400], "multi-pattern", how)
+            continue
+        if stage == "load-schema" and res.get("schema_errors"):
+            ctx.impl_failure("multi-pattern-schema-invalid", "the generated schema is not a valid XML Schema",
+                             ident, res["schema_errors"][:2], "multi-pattern", how)
+            continue
+        if stage != "done":
+            stats["skipped"][stage] = stats["skipped"].get(stage, 0) + 1
+            continue
+        st = res.get("stats") or {}
+        k = len(spec["patterns"])
+        stats["patterns_per_value"][k] = stats["patterns_per_value"].get(k, 0) + 1
+        names = ["Code", "Prefixed_code", "Product_code", "Special_product_code"][:spec["depth"]]
+        stats["orders"]["topological" if spec["declaration_order"] == names else "other"] += 1
+        stats["valid_values"] += st.get("valid_values", 0)
+        for kind, v in (st.get("mutants") or {}).items():
+            stats["mutants"][kind] = stats["mutants"].get(kind, 0) + v
+            nontrivial.append(("chain", m["index"], kind))
+        seen = set()
+        for vf in res.get("valid_fail") or []:
+            if vf["kind"] != "valid-value-rejected" or "valid" in seen:
+                continue
+            seen.add("valid")
+            ctx.impl_failure("multi-pattern-valid-value-rejected",
+                             "a value satisfying all the patterns and length bounds (and the SDK's "
+                             "verification) is rejected by the generated schema (property C13, found "
+                             "by the multi-pattern stream)", dict(ident, value=vf["value"],
+                                                                 document=vf.get("document")),
+                             {"pattern_facets": res.get("pattern_facets")}, "multi-pattern", how)
+        for mf in res.get("mutant_fail") or []:
+            cat = f"multi-pattern-mutant-accepted-{mf['kind']}"
+            if cat in seen:
+                continue
+            seen.add(cat)
+            ctx.impl_failure(cat, f"a value that breaks only {mf['violates']} of the "
+                             f"{k} patterns / bounds on the value is accepted by the generated schema",
+                             dict(ident, value=mf["value"], document=mf["document"]),
+                             {"accepted_by": mf["accepted_by"], "pattern_facets": res.get("pattern_facets"),
+                              "length_facets": res.get("length_facets")}, "multi-pattern", how)
+    stats["nontrivial"] = nontrivial
+    return stats
+
+
 def streams(ctx: lib.Ctx) -> None:
     results = gx.pattern_stream(ctx, ctx.n(120, 2000), ctx.n(20, 40))
     pstats = pattern_oracle(ctx, results)
@@ -132,13 +201,28 @@ def streams(ctx: lib.Ctx) -> None:
               validated=len(results), **pstats)
 
     models = gx.gen_models(ctx.rng, ctx.n(5, 40), inject_share=0.4)
-    mres = gx.run_models(models, n_docs=ctx.n(40, 60), mutants_per_doc=6)
+    cmodels = gx.gen_chain_models(ctx.rng, ctx.n(6, 40))
+    import concurrent.futures
+    with concurrent.futures.ThreadPoolExecutor(max_workers=1) as side:
+        # both streams are bound by subprocesses (real CLI runs): overlap them
+        cfuture = side.submit(gx.run_chain_models, cmodels, ctx.n(10, 20))
+        mres = gx.run_models(models, n_docs=ctx.n(40, 60), mutants_per_doc=6)
+        cres = cfuture.result()
     mstats = model_oracle(ctx, models, mres)
     nontrivial = mstats.pop("nontrivial")
     fstats = gx.facet_stream(ctx, mres)
     ctx.count("models", sum(mstats["mutants"].values()), nontrivial_keys=nontrivial,
               validated=sum(mstats["mutants"].values()), **mstats)
     ctx.count("facets", sum(fstats.values()), validated=sum(fstats.values()), **fstats)
+    cstats = chain_oracle(ctx, cmodels, cres)
+    cnontrivial = cstats.pop("nontrivial")
+    ctx.count("multi-pattern", cstats["valid_values"] + sum(cstats["mutants"].values()),
+              nontrivial_keys=cnontrivial, validated=cstats["valid_values"] + sum(cstats["mutants"].values()),
+              **cstats)
+    if cmodels:
+        ctx.sample({"multi_pattern_spec": {k: cmodels[0]["spec"][k] for k in
+                                           ("patterns", "min", "max", "declaration_order")},
+                    "emitted": (cres[0].get("pattern_facets"), cres[0].get("length_facets"))})
     for res in mres[:3]:
         for mf in (res.get("mutant_fail") or [])[:1]:
             ctx.sample({"mutant": mf["kind"], "where": mf["where"]})
